@@ -96,6 +96,47 @@ def int_bits(fn, ty_ix):
     return None, None
 
 
+CURSOR_ADTS = ('file::File', 'file::FilePos')
+
+
+def cursor_owner(facts, fn, owner_ty):
+    """is the struct the file handle itself or a private struct that is (the type of) a field of the file handle?"""
+    if not owner_ty or owner_ty.get('k') != 'adt':
+        return False
+    path = owner_ty.get('path') or ''
+    if path.endswith('file::File'):
+        return True
+    fa = facts.adts.get('fatfs::file::File')
+    if fa is None:
+        return False
+    for f in fa['variants'][0]['fields']:
+        fty = fn.types[f['ty']]
+        if fty.get('k') == 'adt' and fty.get('path') == path and path.startswith('fatfs::'):
+            return True
+    return False
+
+
+def cursor_stores(facts, fn, names):
+    """stores into a cursor field of the file handle: `self.<f> = v`, `self.pos.<f> = v`, or a struct holding the cursor built
+    anew (`self.pos = FilePos { <f>: v, .. }`).  Yields (block, span, value operand or None, statement)"""
+    from analyses import place_prefix_type
+    for bi in sorted(fn.reachable()):
+        for s in fn.blocks[bi]['stmts']:
+            if s['k'] != 'assign':
+                continue
+            rv = s['rv']
+            if s['lhs']['p'] and 'f' in s['lhs']['p'][-1] and s['lhs']['p'][-1].get('n') in names:
+                owner = place_prefix_type(fn, s['lhs'], len(s['lhs']['p']) - 1)
+                if cursor_owner(facts, fn, owner):
+                    yield bi, s['span'], (rv['a'] if rv['k'] in ('use', 'cast') else None), s
+            if rv['k'] == 'agg' and rv.get('ak') == 'adt' and (rv.get('adt') or '').startswith('fatfs::file::') and \
+                    not (rv.get('adt') or '').endswith('file::File'):
+                if cursor_owner(facts, fn, {'k': 'adt', 'path': rv['adt']}):
+                    for fname, o in zip(rv.get('fields') or [], rv.get('ops') or []):
+                        if fname in names:
+                            yield bi, s['span'], o, s
+
+
 def run(ctx, rep):
     facts, eff = ctx.facts, ctx.effects
     R, W, S, T, U = (facts.fns.get(n) for n in (READ, WRITE, SEEK, TRUNC, UPD))
@@ -110,7 +151,7 @@ def run(ctx, rep):
     # ---------------- B1 / B2 clipping
     for fn, kind, rule, need_calls, extra in ((R, 'R', 'B1', {'cluster_size', 'min', 'bytes_left_in_file'}, None),
                                               (W, 'W', 'B2', {'cluster_size', 'min'}, 'MAX_FILE_SIZE')):
-        d = Deps(fn)
+        d = Deps(fn, expand_fields=True)  # a cluster size cached in the handle still comes from FileSystem::cluster_size
         sites = dev_calls(fn, eff, kind)
         if not sites:
             rep.machinery('ANCHOR-MISSING device %s call in %s' % (kind, fn.name))
@@ -160,23 +201,18 @@ def run(ctx, rep):
         d = Deps(fn)
         devb = {b for b, t in dev_calls(fn, eff, kind)}
         defs = single_def(fn)
-        for bi in sorted(fn.reachable()):
-            for s in fn.blocks[bi]['stmts']:
-                if s['k'] != 'assign' or not s['lhs']['p']:
-                    continue
-                names = [e.get('n') for e in s['lhs']['p'] if 'f' in e]
-                if names[-1:] != ['offset']:
-                    continue
+        for bi, span_, vop, s in cursor_stores(facts, fn, ('offset', )):
+            if True:
                 n_b3 += 1
                 # the assigned value is `offset + <count>`: find the addition it comes from
                 toks = set()
-                for o in ([s['rv']['a']] if s['rv']['k'] in ('use', 'cast') else []):
-                    toks = d.of_operand(o)
+                if vop is not None:
+                    toks = d.of_operand(vop)
                 addend_ok = False
                 for bj in fn.reachable():
                     for s2 in fn.blocks[bj]['stmts']:
                         if s2['k'] == 'assign' and s2['rv']['k'] == 'binop' and s2['rv']['op'].startswith('Add') and \
-                                ('local', s2['lhs']['l']) in toks | {('local', s['lhs']['l'])}:
+                                ('local', s2['lhs']['l']) in toks | ({('local', s['lhs']['l'])} if s['lhs']['p'] else set()):
                             for x in (s2['rv']['a'], s2['rv']['b']):
                                 tx = d.of_operand(x)
                                 if ('field', 'offset') in tx and not any(('callsite', c) in tx for c in devb):
@@ -185,9 +221,9 @@ def run(ctx, rep):
                                 if origin(fn, defs, x, devb, through_casts=True) == 'device-count':
                                     addend_ok = True
                 rep.oblige('B3', '%s|bb%d' % (fn.name, bi), ok=addend_ok, nontrivial=True,
-                           sample={'fn': fn.name, 'at': fn.loc(s['span']), 'expr': s['span']['snip'][:60]})
+                           sample={'fn': fn.name, 'at': fn.loc(span_), 'expr': span_['snip'][:60]})
                 if not addend_ok:
-                    rep.violation('B3', vkey('B3', fn.name, 'cursor-advance', ''), fn.loc(s['span']),
+                    rep.violation('B3', vkey('B3', fn.name, 'cursor-advance', ''), fn.loc(span_),
                                   'the cursor in %s is not advanced by the count the device returned (a short transfer '
                                   'would leave a gap / skip bytes)' % fn.name)
     # no other function moves the cursor (seek, clone/new construct it)
@@ -195,12 +231,8 @@ def run(ctx, rep):
     for fn in facts.fns.values():
         if fn.crate != 'fatfs':
             continue
-        for bi in fn.reachable():
-            for s in fn.blocks[bi]['stmts']:
-                if s['k'] == 'assign' and s['lhs']['p']:
-                    names = [e.get('n') for e in s['lhs']['p'] if 'f' in e]
-                    if names[-1:] == ['offset'] and field_is_file_offset(facts, fn, s['lhs']):
-                        movers.add(fn.name)
+        for bi_, span_, vop_, s_ in cursor_stores(facts, fn, ('offset', )):
+            movers.add(fn.name)
     extra = sorted(movers - {READ, WRITE, SEEK})
     rep.oblige('B3.movers', 'File.offset', ok=not extra, nontrivial=True, sample={'movers': sorted(movers)})
     rep.counts['B3.sites'] = n_b3
@@ -238,16 +270,12 @@ def run(ctx, rep):
                 if r0 is not None:
                     addressed.add(r0)
         after_dev = fn.reach_from(devb)
-        for bi in sorted(fn.reachable()):
-            for s in fn.blocks[bi]['stmts']:
-                if s['k'] != 'assign' or not s['lhs']['p']:
+        for bi, span_, o, s in cursor_stores(facts, fn, ('current_cluster', 'cluster')):
+            if True:
+                if bi not in after_dev:
                     continue
-                names = [e.get('n') for e in s['lhs']['p'] if 'f' in e]
-                if names[-1:] != ['current_cluster'] or bi not in after_dev:
-                    continue
-                if s['rv']['k'] not in ('use', 'agg'):
-                    continue
-                o = s['rv']['a'] if s['rv']['k'] == 'use' else (s['rv'].get('ops') or [None])[0]
+                if o is None and s['rv']['k'] == 'agg' and s['lhs']['p']:
+                    o = (s['rv'].get('ops') or [None])[0]
                 if o is None:
                     continue
                 n_b7 += 1
@@ -266,9 +294,9 @@ def run(ctx, rep):
                             st.append(tk[1])
                 ok = (r1 is not None and r1 in addressed) or from_count
                 rep.oblige('B7', '%s|bb%d' % (fn.name, bi), ok=ok, nontrivial=True,
-                           sample={'fn': fn.name, 'at': fn.loc(s['span']), 'expr': s['span']['snip'][:60]})
+                           sample={'fn': fn.name, 'at': fn.loc(span_), 'expr': span_['snip'][:60]})
                 if not ok:
-                    rep.violation('B7', vkey('B7', fn.name, 'cursor-cluster', ''), fn.loc(s['span']),
+                    rep.violation('B7', vkey('B7', fn.name, 'cursor-cluster', ''), fn.loc(span_),
                                   'the cluster %s remembers after the transfer is neither the cluster whose offset was handed to the '
                                   'device nor computed from the count the device returned: after a short transfer the cursor '
                                   '(offset, cluster) is incoherent' % fn.name)
